@@ -1123,3 +1123,119 @@ Lemma hom_is_oracle dz eps Rgas subst (Mfun mufun : matR -> matR) (Tn : vecR) ne
   (forall y, shape (S ne) (length Tn - 1) (Mfun y)) -> (forall y, shape (S ne) (length Tn) (mufun y)) ->
   flux_ok ne (length Tn) (fun y => hom_interior Rops dz eps Rgas subst (Mfun y) (mufun y) Tn y).
 Proof. intros Hn HM Hmu y Hy. exact (hom_interior_shape dz eps Rgas subst (Mfun y) (mufun y) Tn y ne Hn Hy (HM y) (Hmu y)). Qed.
+
+(* ---- solve calls with boundary conditions and constraints edited in between ---------------------------------------------------- *)
+Section CallEnv.
+Variables (dz : R) (ne n : nat).
+Hypothesis Hn : (2 <= n)%nat.
+
+Definition call_ok (c : callenv Rops) : Prop :=
+  length (c_bcs Rops c) = ne /\ steps_ok ne n (c_steps Rops c).
+Definition calls_ok (cs : list (callenv Rops)) : Prop := Forall call_ok cs.
+
+Lemma run_call_shape c (x : matR) : shape ne n x -> call_ok c -> shape ne n (run_call Rops dz c x).
+Proof. intros Hx [Hb Hs]. unfold run_call. apply (run_shape _ _ _ ne n); assumption. Qed.
+
+Lemma run_calls_shape cs (x : matR) : shape ne n x -> calls_ok cs -> shape ne n (run_calls Rops dz cs x).
+Proof.
+  revert x; induction cs as [|c r IH]; intros x Hx Hc; simpl; [exact Hx|].
+  inversion Hc; subst. apply IH; [apply run_call_shape; assumption | assumption].
+Qed.
+
+(* accumulated boundary and clip terms, each call with its own conditions and limits *)
+Fixpoint calls_btotal (e : nat) (cs : list (callenv Rops)) (x : matR) : R :=
+  match cs with
+  | [] => 0
+  | c :: r => btotal (c_bcs Rops c) dz (c_minc Rops c) e (c_steps Rops c) x + calls_btotal e r (run_call Rops dz c x)
+  end.
+Fixpoint calls_ctotal (e : nat) (cs : list (callenv Rops)) (x : matR) : R :=
+  match cs with
+  | [] => 0
+  | c :: r => ctotal (c_bcs Rops c) dz (c_minc Rops c) e (c_steps Rops c) x + calls_ctotal e r (run_call Rops dz c x)
+  end.
+Fixpoint calls_noclip (cs : list (callenv Rops)) (x : matR) : Prop :=
+  match cs with
+  | [] => True
+  | c :: r => noclip (c_bcs Rops c) dz (c_minc Rops c) (c_steps Rops c) x /\ calls_noclip r (run_call Rops dz c x)
+  end.
+
+Lemma run_calls_balance cs (x : matR) e : shape ne n x -> calls_ok cs -> (e < ne)%nat ->
+  sumR (rowOf (run_calls Rops dz cs x) e) = sumR (rowOf x e) + calls_btotal e cs x + calls_ctotal e cs x.
+Proof.
+  revert x; induction cs as [|c r IH]; intros x Hx Hc He; simpl; [lra|].
+  inversion Hc as [|? ? Hc1 Hc2]; subst. rewrite IH by (auto; apply run_call_shape; assumption).
+  destruct Hc1 as [Hb Hs]. unfold run_call at 1. rewrite (run_balance _ _ _ ne n) by assumption. lra.
+Qed.
+
+(* element e has prescribed fluxes in every call (the values may differ from call to call) *)
+Fixpoint calls_flux_total (e : nat) (cs : list (callenv Rops)) : R :=
+  match cs with
+  | [] => 0
+  | c :: r => total_time (c_steps Rops c) * (lval Rops (bcOf (c_bcs Rops c) e) - rval Rops (bcOf (c_bcs Rops c) e)) / dz
+              + calls_flux_total e r
+  end.
+Definition calls_prescribed_bc (e : nat) (cs : list (callenv Rops)) : Prop :=
+  Forall (fun c => ltype Rops (bcOf (c_bcs Rops c) e) = FluxBC /\ rtype Rops (bcOf (c_bcs Rops c) e) = FluxBC) cs.
+
+Lemma run_calls_prescribed cs (x : matR) e : shape ne n x -> calls_ok cs -> (e < ne)%nat ->
+  calls_noclip cs x -> calls_prescribed_bc e cs ->
+  sumR (rowOf (run_calls Rops dz cs x) e) = sumR (rowOf x e) + calls_flux_total e cs.
+Proof.
+  revert x; induction cs as [|c r IH]; intros x Hx Hc He Hn0 Hp; simpl; [lra|].
+  inversion Hc as [|? ? Hc1 Hc2]; subst. inversion Hp as [|? ? [Hl Hr] Hp2]; subst. destruct Hn0 as [N1 N2].
+  rewrite IH by (auto; apply run_call_shape; assumption).
+  destruct Hc1 as [Hb Hs]. unfold run_call at 1. rewrite (run_flux_bc _ _ _ ne n) by assumption. lra.
+Qed.
+
+(* closed in every call: constant, whatever else was edited between the calls *)
+Lemma run_calls_closed cs (x : matR) e : shape ne n x -> calls_ok cs -> (e < ne)%nat ->
+  calls_noclip cs x -> Forall (fun c => bcOf (c_bcs Rops c) e = bc0) cs ->
+  sumR (rowOf (run_calls Rops dz cs x) e) = sumR (rowOf x e).
+Proof.
+  revert x; induction cs as [|c r IH]; intros x Hx Hc He Hn0 Hp; simpl; [reflexivity|].
+  inversion Hc as [|? ? Hc1 Hc2]; subst. inversion Hp as [|? ? Hb0 Hp2]; subst. destruct Hn0 as [N1 N2].
+  rewrite IH by (auto; apply run_call_shape; assumption).
+  destruct Hc1 as [Hb Hs]. unfold run_call. apply (run_closed _ _ _ ne n); assumption.
+Qed.
+
+(* a node that carries a composition condition in every call keeps its value, provided the value lies
+   within the limits of every call *)
+Lemma run_calls_dirichlet_left cs (x : matR) e : shape ne n x -> calls_ok cs -> (e < ne)%nat ->
+  Forall (fun c => ltype Rops (bcOf (c_bcs Rops c) e) = CompBC /\ within (c_minc Rops c) (nthR (rowOf x e) 0)) cs ->
+  nthR (rowOf (run_calls Rops dz cs x) e) 0 = nthR (rowOf x e) 0.
+Proof.
+  revert x; induction cs as [|c r IH]; intros x Hx Hc He Hp; simpl; [reflexivity|].
+  inversion Hc as [|? ? Hc1 Hc2]; subst. inversion Hp as [|? ? [Ht Hw] Hp2]; subst. destruct Hc1 as [Hb Hs].
+  assert (E : nthR (rowOf (run_call Rops dz c x) e) 0 = nthR (rowOf x e) 0)
+    by (unfold run_call; apply (run_dirichlet_left _ _ _ ne n); assumption).
+  rewrite IH; [exact E | apply run_call_shape; [assumption | split; assumption] | assumption | assumption |].
+  eapply Forall_impl; [|exact Hp2]. intros c' [H1 H2]. split; [exact H1|]. cbn [T Rops] in *. rewrite E. exact H2.
+Qed.
+
+Lemma run_calls_dirichlet_right cs (x : matR) e : shape ne n x -> calls_ok cs -> (e < ne)%nat ->
+  Forall (fun c => rtype Rops (bcOf (c_bcs Rops c) e) = CompBC /\ within (c_minc Rops c) (nthR (rowOf x e) (n - 1))) cs ->
+  nthR (rowOf (run_calls Rops dz cs x) e) (n - 1) = nthR (rowOf x e) (n - 1).
+Proof.
+  revert x; induction cs as [|c r IH]; intros x Hx Hc He Hp; simpl; [reflexivity|].
+  inversion Hc as [|? ? Hc1 Hc2]; subst. inversion Hp as [|? ? [Ht Hw] Hp2]; subst. destruct Hc1 as [Hb Hs].
+  assert (E : nthR (rowOf (run_call Rops dz c x) e) (n - 1) = nthR (rowOf x e) (n - 1))
+    by (unfold run_call; apply (run_dirichlet_right _ _ _ ne n); assumption).
+  rewrite IH; [exact E | apply run_call_shape; [assumption | split; assumption] | assumption | assumption |].
+  eapply Forall_impl; [|exact Hp2]. intros c' [H1 H2]. split; [exact H1|]. cbn [T Rops] in *. rewrite E. exact H2.
+Qed.
+
+End CallEnv.
+
+(* after a call that made at least one step every entry lies within the limits in force during THAT call *)
+Lemma run_nonempty_inrange bcs dz minc steps (x : matR) : minc <= 1 - minc -> steps <> [] ->
+  inrange minc (run Rops bcs dz minc steps x).
+Proof.
+  intros Hm. revert x; induction steps as [|s r IH]; intros x Hne; [congruence|].
+  cbn [run]. destruct r as [|s2 r].
+  - cbn [run]. unfold step. apply postProcess_bounds. exact Hm.
+  - apply IH. discriminate.
+Qed.
+
+Lemma run_call_bounds dz (c : callenv Rops) (x : matR) : c_minc Rops c <= 1 - c_minc Rops c -> c_steps Rops c <> [] ->
+  inrange (c_minc Rops c) (run_call Rops dz c x).
+Proof. intros. unfold run_call. apply run_nonempty_inrange; assumption. Qed.
